@@ -148,7 +148,7 @@ class C12(Check):
             reps2 = reps2[seed % 4::4]
             reps3 = [r for r in reps3 if len(r[0]) >= 2][seed % 3::3]
         reps2d, _ = scopes.structural_scope(scopes.L3, scopes.SIG3, 2, ("strong",), seed, 1, minsize=2)
-        reps3 = reps3 + [([p_[0], p_[0], p_[1]], "strong") for p_, _c in reps2d[seed % 2::2]]      # the same conditional twice
+        dups = [[p_[0], p_[0], p_[1]] for p_, _c in reps2d]      # the same conditional twice
         q2 = scopes.semclass_reps(scopes.C2, scopes.SIG2)[3::7]
         q3 = scopes.literal_queries3()[::8]
         self.nb = len(reps2) + len(reps3)
@@ -156,6 +156,12 @@ class C12(Check):
             T = transforms_for(len(conds), scopes.SIG2, quick)
             for i in range(0, len(T), 6):
                 out.append((scopes.SIG2, conds, cls, q2, T[i:i + 6]))
+        for conds in dups:
+            # count-sensitive: all type-level queries, transformations that make the two copies differ / reorder / re-key them
+            sems = [forms.sem(x, scopes.SIG3) for x in conds]
+            tq = [scopes.render_query(scopes.SIG3, vf) for vf in scopes.type_queries(sems, 8, 2, 1)]
+            T = [("rewrite-first", k) for k in ("dneg", "cons_and_ante", "andtop")] + [("order", (2, 1, 0)), ("keys", "shift")]
+            out.append((scopes.SIG3, conds, "strong", tq, T))
         for conds, cls in reps3:
             T = transforms_for(len(conds), scopes.SIG3, quick)
             pairs = [("pair", T[0], ("rewrite-base", "demorgan")), ("pair", ("keys", "sparse0"), ("sig", "extend")),
